@@ -21,9 +21,14 @@ RULE = ("Hypothesis-drawn schedules for 2-4 (thorough: 2-8) logical processes sh
         "open(w) (= truncate), every write chunk of json.dump, read, close and around the database conversion; two "
         "visibility models (data visible at close / after every write). Non-trivial = a process opened a config "
         "file between another process's truncate and close, or two read-modify-write cycles overlapped; distinct by "
-        "schedule hash. The smoke stage starts 2-6 real `isoquant.py` processes together and compares each result "
+        "schedule hash. Stage reference_index does the same for 2-4 (2-8) logical processes that open one shared "
+        "reference (bgzip-compressed or plain; no index / .fai only / both / both outdated next to it) through "
+        "open_indexed_fasta and the workers' direct Fasta(): switches at every open/read/write/close/rename of "
+        "<reference>.fai/.gzi; every process must read the true sequences; non-trivial = an index file was opened "
+        "while another process was writing one. The smoke stage starts 2-6 real `isoquant.py` processes together and compares each result "
         "with a solo run.")
-ASSUMPTIONS = ["the only channel between concurrent runs is the file system under $HOME/.config/IsoQuant",
+ASSUMPTIONS = ["the channels between concurrent runs are the files under $HOME/.config/IsoQuant and the index files "
+               "(.fai, .gzi) next to a shared reference",
                "CPython buffered text I/O: open(...,'w') truncates at once, small JSON becomes visible at close; the "
                "second model flushes after every write call (configs larger than the buffer)",
                "kernel-level atomicity of a single write(2) / rename(2) is trusted"]
